@@ -752,6 +752,14 @@ func (sc *Scope) call(e *SExpr) *sv {
 		}
 		arr := mkSelect(ft.memGet(sc.mem, "FILE", fileCompSort()), ref)
 		return &sv{v: &Val{T: types.Typ[types.String], L: []Term{arr, idxInt(0), idxInt(maxLen)}}}
+	case "statSize":
+		// statSize(f): the size os.File.Stat reports for the file handle f (an uninterpreted, non-negative function of the handle)
+		x := sc.eval(e.Args[0]).v
+		if x == nil || len(x.L) == 0 {
+			return sc.fail("statSize expects a *os.File")
+		}
+		ft.c.addPre("statinfo", "(declare-fun statinfo (Int) Int)\n(declare-fun infosize (Int) "+SBV(64)+")")
+		return &sv{v: &Val{T: types.Typ[types.Int64], L: []Term{rawApp(SBV(64), "infosize", rawApp(SInt, "statinfo", x.L[0]))}}}
 	case "sameArray":
 		// sameArray(s, t): the two slices share their backing array
 		a, b := sc.eval(e.Args[0]).v, sc.eval(e.Args[1]).v
